@@ -14,6 +14,7 @@
 package main
 
 import (
+	"bufio"
 	"bytes"
 	"crypto/rand"
 	"fmt"
@@ -222,9 +223,110 @@ func (r *seqReader) Read(p []byte) (int, error) {
 	return len(p), nil
 }
 
+// ---------- replay: re-evaluate op lines of an earlier run against the current tree ----------
+
+func evalLine(l string) (res string) {
+	defer func() {
+		if r := recover(); r != nil {
+			res = "harness-cannot-evaluate: " + fmt.Sprint(r)
+		}
+	}()
+	t := strings.Fields(strings.TrimPrefix(l, "!"))
+	if len(t) < 2 || t[0] != "G" {
+		return "bad-op"
+	}
+	set := func(name string) *pset {
+		for _, s := range sets {
+			if s.name == name {
+				return s
+			}
+		}
+		panic("parameter set " + name)
+	}
+	num := func(x string) uint64 {
+		v, err := strconv.ParseUint(x, 10, 64)
+		if err != nil {
+			panic(err)
+		}
+		return v
+	}
+	switch t[1] {
+	case "slhkeygen":
+		sk, pk := set(t[2]).p.VerifKeygenInternal(hlib.FromTok(t[3]), hlib.FromTok(t[4]), hlib.FromTok(t[5]))
+		return "ok " + hlib.Tok(sk.Encode()) + " " + hlib.Tok(pk.Encode())
+	case "slhsign":
+		s := set(t[2])
+		sk, err := s.p.DecodeSecretKey(hlib.FromTok(t[3]))
+		if err != nil || len(hlib.FromTok(t[5])) != s.n {
+			return "err"
+		}
+		return "ok " + hlib.Tok(sk.VerifSignInternal(hlib.FromTok(t[4]), hlib.FromTok(t[5])))
+	case "slhverify":
+		pk, err := set(t[2]).p.DecodePublicKey(hlib.FromTok(t[3]))
+		if err != nil {
+			return "0"
+		}
+		return b01(pk.VerifVerifyInternal(hlib.FromTok(t[4]), hlib.FromTok(t[5])))
+	case "slhfmt":
+		// the library formats inside Sign/Verify; what can be replayed is its refusal of long contexts
+		ctx, msg := hlib.FromTok(t[2]), hlib.FromTok(t[3])
+		k := sets[2]
+		sk, _ := k.p.VerifKeygenInternal(make([]byte, k.n), make([]byte, k.n), make([]byte, k.n))
+		if _, err := sk.SignDeterministic(msg, ctx); err != nil {
+			return "err"
+		}
+		return "ok " + hlib.Tok(fmtMsg(ctx, msg))
+	case "slhtoint":
+		x := hlib.FromTok(t[2])
+		return strconv.FormatUint(islh.VerifToInt(x, uint32(len(x))), 10)
+	case "slhtobyte":
+		return hlib.Tok(islh.VerifToByte(uint32(num(t[2])), uint32(num(t[3]))))
+	case "slhbase2b":
+		return u32s(islh.VerifBase2b(hlib.FromTok(t[2]), uint32(num(t[3])), uint32(num(t[4]))))
+	case "slhsplit":
+		s := set(t[2])
+		dg := hlib.FromTok(t[3])
+		r := s.p.VerifSplitVerify(dg)
+		r2 := s.p.VerifSplitSign(dg)
+		if !r.Complete || !r2.Complete || r.IdxTree != r2.IdxTree || r.IdxLeaf != r2.IdxLeaf {
+			return fmt.Sprintf("sign-and-verify-split-differ %+v %+v", r, r2)
+		}
+		return fmt.Sprintf("%s %d %d", hlib.Tok(dg[:s.mdLen()]), r.IdxTree, r.IdxLeaf)
+	}
+	return "bad-op"
+}
+
+func replay(o *hlib.Out, path string) {
+	f, err := os.Open(path)
+	if err != nil {
+		panic(err)
+	}
+	defer f.Close()
+	sc := bufio.NewScanner(f)
+	sc.Buffer(make([]byte, 1<<20), 1<<28)
+	for sc.Scan() {
+		l := strings.TrimSpace(sc.Text())
+		if l == "" {
+			continue
+		}
+		if strings.HasPrefix(l, "#") {
+			if strings.HasPrefix(l, "# case") {
+				o.Case()
+			}
+			continue
+		}
+		o.Emit(l, evalLine(l), true)
+		o.Count("replay")
+	}
+}
+
 func main() {
 	o := hlib.Open("C16")
 	defer o.Close()
+	if *hlib.FlagReplay != "" {
+		replay(o, *hlib.FlagReplay)
+		return
+	}
 	seed := *hlib.FlagSeed
 	rng := hlib.NewRng(seed, "c16")
 	rd := &seqReader{rng: hlib.NewRng(seed, "c16-rand"), sig: make(chan struct{}, 1)}
